@@ -2,7 +2,7 @@
    the existing rules keep their relative order, enabled flags, functions and
    chains; the new rule sits immediately before / after the FIRST rule named
    by the reference (duplicates allowed), or at the end. *)
-From MD Require Import Base.Py Model.Ruler Lemmas.RulerSets.
+From MD Require Import Base.Py Model.Ruler Lemmas.RulerSets Lemmas.RulerCoherent.
 
 Section Order.
 Context {F : Type}.
@@ -228,6 +228,19 @@ Proof.
     + unfold step. rewrite E. reflexivity.
   - cbn [step]. unfold all_names, active_names, active. cbn [rules].
     exact (A (rules r) (mkRule name true fn alt) [] eq_refl).
+Qed.
+
+(* a named chain that no ACTIVE rule belongs to is empty after any history -
+   in particular the chains of disabled rules vanish from what is applied *)
+Theorem unlisted_chain_empty (ops : list (op F)) chain :
+  let r := run ops ruler_init in
+  chain <> [] ->
+  (forall x, In x (active r) -> mem_str chain (ralt x) = false) ->
+  snd (get_rules r chain) = [].
+Proof.
+  intros r Hc Hx. destruct (applied_eq_reported ops chain) as [H _]. fold r in H.
+  rewrite H. rewrite filter_none; [reflexivity|].
+  intros x Hin. unfold in_chain. destruct chain as [|c0 ch]; [congruence|]. apply Hx, Hin.
 Qed.
 
 End Order.
